@@ -1,4 +1,4 @@
-CONSTANTS D = {1, 2, 3}  MaxArgs = 3  MaxCnt = 2  MaxOps = 4
+CONSTANTS D = {1, 2, 3}  MaxArgs = 3  MaxCnt = 2  MaxOps = 4  Prefix <- NoPrefix  AllowNew = TRUE
 INIT Init
 NEXT Next
 VIEW View
